@@ -28,7 +28,7 @@ from typing import Any
 
 from .._exceptions import EngineError
 from .._marker_relation import MarkerRelation
-from .._operation_relations import BinaryOperationRelation
+from .._operation_relations import BinaryOperationRelation, UnaryOperationRelation
 from .._operations import Chain, Deduplication, Projection, Slice, Sort
 from .._relation import Relation
 from .._unary_operation import UnaryOperation
@@ -214,8 +214,13 @@ class Select(MarkerRelation):
             # Projection in case a SortTerm depends on a column that the
             # Projection would drop.
             target = sort._finish_apply(target)
-        if projection is not None:
-            target = projection._finish_apply(target)
+        if projection is not None and projection.columns != target.columns:
+            # Construct the relation directly: Projection._finish_apply would
+            # simplify away a Calculation at the top of skip_to, and then the
+            # operations held by this marker would no longer lead to skip_to.
+            target = UnaryOperationRelation(
+                operation=projection, target=target, columns=projection.applied_columns(target)
+            )
         if deduplication is not None:
             target = deduplication._finish_apply(target)
         if slice.start or slice.limit is not None:
